@@ -325,25 +325,82 @@ Section OpsOk.
   Lemma emit_debris_blobs r e : (match e with EAddDebris _ | ERmDebris _ => True | _ => False end) -> blobs (rs (emit r e)) = blobs (rs r).
   Proof. destruct e; cbn; try contradiction; reflexivity. Qed.
 
+  Lemma emit_triv t s0 r e :
+    Rok t s0 r -> (match e with EAddDebris (DColon _ _) => False | EAddDebris _ | ERmDebris _ | EPartRec _ _ _ | ERmPart _ _ => True | _ => False end) ->
+    Rok t s0 (emit r e) /\ blobs (rs (emit r e)) = blobs (rs r).
+  Proof.
+    intros H He. split; [apply Rok_emit; [exact H|] | ]; destruct e as [d|d| | | | | | | | | | ]; try contradiction; try reflexivity; try exact I.
+    destruct d; try contradiction; exact I.
+  Qed.
+
+  Ltac triv_emit H Hb :=
+    match goal with
+    | |- context [emit ?r ?e] =>
+        let H' := fresh "H" in let Hb' := fresh "Hb" in
+        destruct (emit_triv _ _ r e H I) as [H' Hb']
+    end.
+
   Lemma download_ok t s0 r l oc :
-    Inv s0 -> Rok t s0 r -> (match oc with Some c => c = dhex (ldg l) | None => True end) ->
+    Inv s0 -> Rok t s0 r ->
     Rok t s0 (fst (download size_of r l oc)) /\
     (forall hit, snd (download size_of r l oc) = Some hit -> present (rs (fst (download size_of r l oc))) l) /\
     (forall l', present (rs r) l' -> present (rs (fst (download size_of r l oc))) l').
   Proof.
-    intros HI H Hc. unfold download, present.
-    destruct (bget (dhex (ldg l)) (rs r)) as [c0|] eqn:Eb.
-    - cbn. split; [exact H|]. split; [|auto]. intros _ _. rewrite Eb. f_equal. eapply bget_intact; [eapply Rok_inv; eassumption | exact Eb].
-    - destruct oc as [c|]; [|cbn; split; [exact H | split; [discriminate | auto]]]. subst c.
-      set (h := dhex (ldg l)) in *.
-      assert (Hmono : forall (r' : run) l', bget (dhex (ldg l')) (rs r') = Some (dhex (ldg l')) ->
-                bget (dhex (ldg l')) (rs (emit r' (ERenPartial h h))) = Some (dhex (ldg l'))).
-      { intros r' l' Hp. unfold bget; cbn. destruct (N.eq_dec (dhex (ldg l')) h) as [->|Hn]; [apply bget_aset_same | rewrite bget_aset_other by exact Hn; exact Hp]. }
-      destruct (size_of h =? 0).
-      + cbn [fst snd]. split; [apply Rok_emit; [apply Rok_emit; [exact H | exact I] | reflexivity]|].
-        split; [intros _ _; unfold bget; cbn; apply bget_aset_same | intros l' Hp; apply Hmono; exact Hp].
-      + cbn [fst snd]. split; [apply Rok_emit; [repeat (apply Rok_emit; [|exact I]); exact H | reflexivity]|].
-        split; [intros _ _; unfold bget; cbn; apply bget_aset_same | intros l' Hp; apply Hmono; exact Hp].
+    intros HI H. unfold download, download_gen, present. set (h := dhex (ldg l)).
+    destruct (bget h (rs r)) as [c0|] eqn:Eb.
+    - cbn. split; [exact H|]. split; [|auto]. intros _ _. fold h. rewrite Eb. f_equal. eapply bget_intact; [eapply Rok_inv; eassumption | exact Eb].
+    - (* every run reached by debris / part-record effects keeps the blobs *)
+      assert (G : forall r1, Rok t s0 r1 -> blobs (rs r1) = blobs (rs r) -> forall st0 c,
+                 let r2 := emit r1 (EAddDebris (DPartial h)) in
+                 let r3 := match st0 with Some PRTodo => emit (emit r2 (EPartRec h 0 PRTorn)) (EPartRec h 0 PRDone) | _ => r2 end in
+                 let r4 := match st0 with Some _ => emit r3 (ERmPart h 0) | None => r3 end in
+                 let res := if dcolon (ldg l) && (c =? h) then (emit r4 (ERenPartial h c), Some false) else (emit r4 (ERmDebris (DPartial h)), None) in
+                 Rok t s0 (fst res) /\
+                 (forall hit, snd res = Some hit -> bget h (rs (fst res)) = Some h) /\
+                 (forall l', bget (dhex (ldg l')) (rs r) = Some (dhex (ldg l')) -> bget (dhex (ldg l')) (rs (fst res)) = Some (dhex (ldg l')))).
+      { intros r1 H1 B1 st0 c r2 r3 r4 res.
+        destruct (emit_triv t s0 r1 (EAddDebris (DPartial h)) H1 I) as [H2 B2]. fold r2 in H2, B2.
+        assert (H3 : Rok t s0 r3 /\ blobs (rs r3) = blobs (rs r)).
+        { subst r3. destruct st0 as [[| |]|]; try (split; [exact H2 | congruence]).
+          destruct (emit_triv t s0 r2 (EPartRec h 0 PRTorn) H2 I) as [Ha Ba].
+          destruct (emit_triv t s0 _ (EPartRec h 0 PRDone) Ha I) as [Hb Bb]. split; [exact Hb | congruence]. }
+        destruct H3 as [H3 B3].
+        assert (H4 : Rok t s0 r4 /\ blobs (rs r4) = blobs (rs r)).
+        { subst r4. destruct st0 as [st|]; [|split; assumption]. destruct (emit_triv t s0 r3 (ERmPart h 0) H3 I) as [Ha Ba]. split; [exact Ha | congruence]. }
+        destruct H4 as [H4 B4]. subst res.
+        destruct (dcolon (ldg l) && (c =? h)) eqn:Ec; cbn [fst snd].
+        - apply andb_true_iff in Ec as [_ Ec]. apply N.eqb_eq in Ec. subst c.
+          split; [apply Rok_emit; [exact H4 | reflexivity]|]. split.
+          + intros _ _. unfold bget; cbn. apply bget_aset_same.
+          + intros l' Hp. unfold bget in *; cbn. rewrite B4. destruct (N.eq_dec (dhex (ldg l')) h) as [->|Hn]; [apply bget_aset_same | rewrite bget_aset_other by exact Hn; exact Hp].
+        - destruct (emit_triv t s0 r4 (ERmDebris (DPartial h)) H4 I) as [Ha Ba]. split; [exact Ha|]. split; [discriminate|].
+          intros l' Hp. unfold bget in *. rewrite Ba, B4. exact Hp. }
+      assert (F : forall r1, Rok t s0 r1 -> blobs (rs r1) = blobs (rs r) ->
+                  forall x, (match oc with
+                             | None => None
+                             | Some c => if size_of c =? 0 then Some (r1, None)
+                                         else Some (emit (emit r1 (EPartRec h 0 PRTorn)) (EPartRec h 0 PRTodo), Some PRTodo)
+                             end) = Some x -> Rok t s0 (fst x) /\ blobs (rs (fst x)) = blobs (rs r)).
+      { intros r1 H1 B1 x. destruct oc as [c|]; [|discriminate]. destruct (size_of c =? 0); intros [= <-]; cbn [fst]; [auto|].
+        destruct (emit_triv t s0 r1 (EPartRec h 0 PRTorn) H1 I) as [Ha Ba]. destruct (emit_triv t s0 _ (EPartRec h 0 PRTodo) Ha I) as [Hb Bb].
+        split; [exact Hb | congruence]. }
+      destruct (emit_triv t s0 r (ERmPart h 0) H I) as [Hrm Brm].
+      set (prep := match partrec_state h 0 (debris (rs r)) with
+                   | Some PRTorn => _ | Some st => _ | None => _ end).
+      assert (P : forall x, prep = Some x -> Rok t s0 (fst x) /\ blobs (rs (fst x)) = blobs (rs r)).
+      { subst prep. intros x. destruct (partrec_state h 0 (debris (rs r))) as [[| |]|].
+        - cbn [negb]. apply (F _ Hrm Brm).
+        - intros [= <-]. auto.
+        - intros [= <-]. auto.
+        - apply (F r H eq_refl). }
+      assert (Q : Rok t s0 (match partrec_state h 0 (debris (rs r)), false with Some PRTorn, false => emit r (ERmPart h 0) | _, _ => r end) /\
+                  blobs (rs (match partrec_state h 0 (debris (rs r)), false with Some PRTorn, false => emit r (ERmPart h 0) | _, _ => r end)) = blobs (rs r)).
+      { destruct (partrec_state h 0 (debris (rs r))) as [[| |]|]; auto. }
+      destruct prep as [[r1 st0]|] eqn:Ep.
+      + destruct (P _ eq_refl) as [H1 B1]. cbn [fst] in H1, B1. destruct oc as [c|].
+        * destruct (G r1 H1 B1 st0 c) as [G1 [G2 G3]]. split; [exact G1|]. split; [exact G2 | exact G3].
+        * cbn [fst snd]. split; [exact H1|]. split; [discriminate|]. intros l' Hp. unfold bget in *. rewrite B1. exact Hp.
+      + destruct Q as [Q1 Q2]. cbn [fst snd]. split; [exact Q1|]. split; [discriminate|]. intros l' Hp. unfold bget in *. rewrite Q2. exact Hp.
   Qed.
 
   Lemma download_all_ok t s0 ls : forall r cs,
@@ -356,9 +413,7 @@ Section OpsOk.
     induction ls as [|l ls IH]; intros r cs HI H Hc; cbn [download_all].
     - cbn. split; [exact H|]. split; [intros dl [= <-]; split; constructor | auto].
     - cbn [contents_ok] in Hc. apply andb_true_iff in Hc as [Hc1 Hc2].
-      assert (Hc1' : match hd None cs with Some c => c = dhex (ldg l) | None => True end)
-        by (destruct (hd None cs); [apply N.eqb_eq; exact Hc1 | exact I]).
-      destruct (download_ok t s0 r l (hd None cs) HI H Hc1') as [Hd1 [Hd2 Hd3]].
+      destruct (download_ok t s0 r l (hd None cs) HI H) as [Hd1 [Hd2 Hd3]].
       destruct (download size_of r l (hd None cs)) as [r1 [hit|]] eqn:Ed; cbn [fst snd] in Hd1, Hd2, Hd3.
       + destruct (IH r1 (tl cs) HI Hd1 Hc2) as [Ha [Hb Hc']].
         destruct (download_all size_of r1 ls (tl cs)) as [r2 rest] eqn:Ea. cbn [fst snd] in *.
